@@ -264,3 +264,124 @@ def _find_candidates(op):
 
 
 register(QF + 'find_candidates', [_find_candidates(op) for op in OPS3], props=('C01', 'C02', 'C06', 'C14'))
+
+
+# ============================================================================ simfunctions.overlap
+class OverlapFn(Case):
+    """len(set(a) & set(b)): the number of distinct common elements -- the definition of isectV
+    (set construction and intersection are Python builtins; assumed, not executed)"""
+    name = 'lists'
+    status = 'assumed'
+    params = OD([('set1', LV), ('set2', LV)])
+    returns = INT
+
+    def ensures(self, c, res):
+        a, b = c.p('set1'), c.p('set2')
+        return [('value', res.t == S.isectV(a.t, b.t))] + [('facts', f) for f in S.isect_facts(VAL, a, b)]
+
+
+register('py_stringsimjoin.utils.simfunctions.overlap', [OverlapFn()])
+
+
+# ============================================================================ OverlapFilter.filter_pair
+OPF = {'>=': lambda a, b: a >= b, '>': lambda a, b: a > b, '=': lambda a, b: a == b}
+
+
+def _filter_pair(op):
+    class FilterPair(Case):
+        """C06: drops a pair iff a value is missing and allow_missing is off, or a string is
+        empty, or the overlap of the token sets does not satisfy comp_op against overlap_size"""
+        name = op
+        params = OD([('self', filter_obj(op)), ('lstring', VAL), ('rstring', VAL)])
+        returns = BOOL
+
+        def ensures(self, c, res):
+            f = c.p('self')
+            l, r = c['lstring'], c['rstring']
+            rs = c.f(c.field(f, 'tokenizer'), 'return_set')
+            ov = S.isectV(S.toks(rs, l), S.toks(rs, r))
+            missing = z3.Or(N.val_isnull(l), N.val_isnull(r))
+            empty = z3.Or(N.val_empty(l), N.val_empty(r))
+            return [('exact', res.t == z3.If(missing, z3.Not(c.f(f, 'allow_missing')),
+                                             z3.If(empty, z3.BoolVal(True),
+                                                   z3.Not(OPF[op](ov, c.f(f, 'overlap_size'))))))]
+    return FilterPair()
+
+
+register(QF + 'filter_pair', [_filter_pair(op) for op in OPS3], props=('C04', 'C06', 'C08'))
+
+
+# ============================================================================ _filter_tables_split
+from .splits import SplitCfg, make_split_cases, done_rows, done_keys  # noqa
+from .rowspec import cidx  # noqa
+from pyvc.pandas_model import val_of_int  # noqa
+
+
+class OverlapSplitCfg(SplitCfg):
+    qualname = 'py_stringsimjoin.filter.overlap_filter._filter_tables_split'
+    props = ('C01', 'C02', 'C04', 'C06', 'C11', 'C14')
+
+    def params(self, l_none, r_none, op='>='):
+        return OD([('ltable', ROWS), ('rtable', ROWS), ('l_columns', LV), ('r_columns', LV),
+                   ('l_key_attr', VAL), ('r_key_attr', VAL), ('l_filter_attr', VAL), ('r_filter_attr', VAL),
+                   ('overlap_filter', filter_obj(op)),
+                   ('l_out_attrs', NONE if l_none else LV), ('r_out_attrs', NONE if r_none else LV),
+                   ('l_out_prefix', VAL), ('r_out_prefix', VAL), ('out_sim_score', BOOL), ('show_progress', BOOL)])
+
+    def specs(self, c, op='>='):
+        class Sp(object):
+            pass
+        sp = Sp()
+        f = c.p('overlap_filter')
+        sp.lt, sp.rt, sp.lcols, sp.rcols = c.p('ltable'), c.p('rtable'), c.p('l_columns'), c.p('r_columns')
+        sp.lkey, sp.rkey, sp.lattr, sp.rattr = c['l_key_attr'], c['r_key_attr'], c['l_filter_attr'], c['r_filter_attr']
+        sp.lp, sp.rp = c['l_out_prefix'], c['r_out_prefix']
+        rs = c.f(c.field(f, 'tokenizer'), 'return_set')
+        lj, rj = cidx(sp.lcols, sp.lattr), cidx(sp.rcols, sp.rattr)
+        sp.Tl = lambda a: S.toks(rs, L_get(LV, at(sp.lt, a), lj))
+        sp.Tr = lambda b: S.toks(rs, L_get(LV, at(sp.rt, b), rj))
+        sp.o = lambda a, b: S.isectV(sp.Tl(a), sp.Tr(b))
+        size = c.f(f, 'overlap_size')
+        sp.must = lambda a, b: OPF[op](sp.o(a, b), size)       # exact: must == may  (C06)
+        sp.may = sp.must
+        sp.score = lambda a, b: val_of_int(sp.o(a, b))
+        sp.lj, sp.rj, sp.rs = lj, rj, rs
+        return sp
+
+    def requires(self, c, sp, lo, ro, op='>='):
+        r = z3.Int('r!oreq')
+        f = c.p('overlap_filter')
+        return [('set-mode', sp.rs), ('overlap-size-positive', c.f(f, 'overlap_size') > 0),
+                ('filter-values-present', z3.And(
+                    FA([r], z3.Implies(z3.And(r >= 0, r < ln(sp.lt)),
+                                       z3.Not(N.val_isnull(L_get(LV, at(sp.lt, r), sp.lj)))), [at(sp.lt, r)]),
+                    FA([r], z3.Implies(z3.And(r >= 0, r < ln(sp.rt)),
+                                       z3.Not(N.val_isnull(L_get(LV, at(sp.rt, r), sp.rj)))), [at(sp.rt, r)])))]
+
+    def setup(self, c, op='>='):
+        return spec_axioms()
+
+    def appends(self):
+        return [(0, lambda c: (c.t('cand'), c.loop_idx[-2]))]
+
+    def loops(self):
+        return {'0': done_rows, '0.0': done_keys}
+
+    def extra_hooks(self, op='>='):
+        def after_fc(c):
+            sp = self.specs(c, op=op)
+            ri = c.loop_idx[-1]
+            co = c.call_result
+            a = z3.Int('a!ofc')
+            inl = z3.And(a >= 0, a < ln(sp.lt))
+            val = z3.If(D_has(CAND, co.t, a), D_get(CAND, co.t, a), 0)
+            c.asserts.append(('candidate-counts-are-overlaps', FA([a], z3.Implies(inl, val == sp.o(a, ri)),
+                                                                 [sp.Tl(a)])))
+        return (Hook('overlap_filter.find_candidates', after_fc, ()),)
+
+
+_ocfg = OverlapSplitCfg()
+register(_ocfg.qualname,
+         make_split_cases(_ocfg, [('%s-%s-%s' % (op, 'None' if a else 'list', 'None' if b else 'list'), a, b, dict(op=op))
+                                  for op in OPS3 for a in (False, True) for b in (False, True)]),
+         props=_ocfg.props)
